@@ -42,6 +42,7 @@ type workerOut struct {
 	Rollbacks    int64
 	CursorChecks int64
 	Pruned       int64
+	Merged       int64
 	Capped       bool
 	Tainted      bool
 	Samples      [][]string
@@ -174,7 +175,7 @@ func runWorker(r *evid.Run, job string) {
 		in.close()
 	}()
 	out := workerOut{Job: job, TxStates: e.txStates, OuterStates: e.outerStates, Transitions: e.transitions, Executions: e.executions,
-		Commits: e.commits, Reopens: e.reopens, FailedUpd: e.failedUpd, Rollbacks: e.rollbacks, CursorChecks: e.cursorChecks, Pruned: e.pruned, Capped: e.capped && !e.tainted, Tainted: e.tainted, Samples: e.samples}
+		Commits: e.commits, Reopens: e.reopens, FailedUpd: e.failedUpd, Rollbacks: e.rollbacks, CursorChecks: e.cursorChecks, Pruned: e.pruned, Merged: e.mergedTransitions, Capped: e.capped && !e.tainted, Tainted: e.tainted, Samples: e.samples}
 	for _, sig := range e.order {
 		rec := e.fails[sig]
 		// confirm by two plain replays of the recorded history on fresh databases
@@ -274,6 +275,7 @@ func main() {
 		tot.Rollbacks += o.Rollbacks
 		tot.CursorChecks += o.CursorChecks
 		tot.Pruned += o.Pruned
+		tot.Merged += o.Merged
 		capped = capped || o.Capped || o.Tainted
 		cn := strings.SplitN(o.Job, ":", 2)[0]
 		for _, v := range o.Violations {
@@ -339,6 +341,7 @@ func main() {
 		"rollbacks_checked_no_trace":                     tot.Rollbacks,
 		"failed_updates_checked_no_trace":                tot.FailedUpd,
 		"cursor_operations_checked":                      tot.CursorChecks,
+		"transitions_into_merged_states_executed":        tot.Merged,
 		"max_depth_completed":                            depth,
 		"max_depth_from_populated_and_dirty_cache_state": depthPop,
 		"cache_configurations":                           cn,
